@@ -19,6 +19,9 @@ Sig == [interpret |-> <<<<"tree">>, "graph", FALSE>>,
         format |-> <<<<"tree">>, "", FALSE>>,
         encode |-> <<<<"graph">>, "", FALSE>>,
         decode_encode |-> <<<<"graph">>, "graph", FALSE>>,
+        \* the same through penman.encode / penman.decode with the default model and with the no-op model (equal tables, other behaviour)
+        default_roundtrip |-> <<<<"graph">>, "graph", FALSE>>,
+        noop_roundtrip |-> <<<<"graph">>, "graph", FALSE>>,
         copy_graph |-> <<<<"graph">>, "graph", FALSE>>,
         relayout |-> <<<<"graph">>, "graph", FALSE>>,
         canonicalize_roles |-> <<<<"tree">>, "tree", FALSE>>,
